@@ -56,7 +56,15 @@ VARIES = (
     "characters repeated, JSON members the formats do not define, certificates with unknown "
     "signature algorithm identifiers, elements extended without re-signing, non-zero timestamps, "
     "file names that read like data (64 hex digits, numbers), regenerated authorization files, "
-    "process-wide socket defaults, coinbase byte counts overflowing 64 bits")
+    "process-wide socket defaults, coinbase byte counts overflowing 64 bits, JSON members under "
+    "near-miss names, every generic check also on the SGX and TCPSigner platforms, the same "
+    "refusal ten times in a row, state queries before block operations, all-zero tweaks and "
+    "untweaked-key signatures, several targets with failing branches in any order, version "
+    "numbers with two- and three-digit components, every command as the one that runs into a "
+    "reconnection, requests ending in a manager stop after others were served, SIGTERM while an "
+    "exchange is in flight, device chunk requests of every size in every relay, certificate "
+    "headers that begin like the bytes around them, more than ten signatures, image paths "
+    "through symlinked directories, several onboardings in one process")
 
 IDEAS = (
     "a code path only reached through a rarely used command-line option, environment variable or "
